@@ -78,6 +78,54 @@ theorem sorted_perm_unique {lt : α → α → Bool} (h : StrictTotal lt) :
     have := sorted_perm_unique h t t₂ (List.Perm.cons_inv hp) h1'.2 h2'.2
     rw [this]
 
+/-! ## The driver's sort is a lawful instance -/
+
+theorem insertSorted_perm (lt : α → α → Bool) (c : α) : ∀ l : List α, (insertSorted lt c l).Perm (c :: l)
+  | [] => List.Perm.refl _
+  | d :: ds => by
+    unfold insertSorted
+    split
+    · exact List.Perm.refl _
+    · exact ((insertSorted_perm lt c ds).cons d).trans (List.Perm.swap c d ds)
+
+theorem isort_perm (lt : α → α → Bool) : ∀ l : List α, (isort lt l).Perm l
+  | [] => List.Perm.refl _
+  | c :: cs => (insertSorted_perm lt c (isort lt cs)).trans ((isort_perm lt cs).cons c)
+
+theorem insertSorted_pairwise {lt : α → α → Bool} (h : StrictTotal lt) (c : α) :
+    ∀ l : List α, l.Pairwise (fun a b => lt b a = false) →
+      (insertSorted lt c l).Pairwise (fun a b => lt b a = false)
+  | [], _ => by simp [insertSorted]
+  | d :: ds, hp => by
+    have hp' := List.pairwise_cons.mp hp
+    unfold insertSorted
+    split
+    · rename_i hcd
+      refine List.pairwise_cons.mpr ⟨?_, hp⟩
+      intro x hx
+      rcases List.mem_cons.mp hx with rfl | hx
+      · exact h.asymm hcd
+      · cases hxc : lt x c with
+        | false => rfl
+        | true =>
+          have := h.trans hxc hcd
+          rw [hp'.1 x hx] at this; cases this
+    · rename_i hcd
+      refine List.pairwise_cons.mpr ⟨?_, insertSorted_pairwise h c ds hp'.2⟩
+      intro x hx
+      rcases List.mem_cons.mp ((insertSorted_perm lt c ds).mem_iff.mp hx) with rfl | hx
+      · simpa using hcd
+      · exact hp'.1 x hx
+
+theorem isort_pairwise {lt : α → α → Bool} (h : StrictTotal lt) :
+    ∀ l : List α, (isort lt l).Pairwise (fun a b => lt b a = false)
+  | [] => List.Pairwise.nil
+  | c :: cs => insertSorted_pairwise h c _ (isort_pairwise h cs)
+
+/-- Insertion sort (the driver's stand-in for `sort.Slice`) satisfies `LawfulSort`. -/
+theorem isort_lawful {lt : α → α → Bool} (h : StrictTotal lt) : LawfulSort lt (isort lt) :=
+  fun l => ⟨isort_perm lt l, isort_pairwise h l⟩
+
 /-! ## The filtering loop -/
 
 /-- An edge survives `ApplyCursorsToEdges`: strictly after `after` and strictly before `before`. -/
@@ -181,25 +229,58 @@ theorem sort_filter_eq {lt : α → α → Bool} (h : StrictTotal lt) {sort : Li
     (List.Perm.filter p hperm).trans (hs (E.filter p)).1.symm
   exact (sorted_perm_unique h _ _ h1 (List.Pairwise.filter p hsorted) (hs (E.filter p)).2).symm
 
-/-- The page the model returns, the flags, start and end cursor — closed form. `S` is the edge set in
-    cursor order, `R` the range between the cursors, `X` the range cut by `first`. -/
+/-- The page info computed by `EdgesToReturn` from the raw slice `es` and the filtered, sorted
+    slice `X` — closed form. -/
+def pageInfoOf (lt : α → α → Bool) (es X : List α) (after before : Option α) (f l : Option Int) : PageInfo α :=
+  { hasPreviousPage := match l with
+      | none => es.any (fun c => !pastBefore lt before c && notPastAfter lt after c)
+      | some n => decide (((firstTrunc X f).length : Int) > n),
+    hasNextPage := match f with
+      | none => es.any (pastBefore lt before)
+      | some n => decide ((X.length : Int) > n),
+    startCursor := (lastTrunc (firstTrunc X f) l).head?,
+    endCursor := (lastTrunc (firstTrunc X f) l).getLast? }
+
+/-- Closed form of `edgesToReturn` for non-negative counts, for any `sort`. -/
+theorem edgesToReturn_raw (lt : α → α → Bool) (sort : List α → List α) (es : List α)
+    (after before : Option α) (f l : Option Int) (hf : NonNeg f) (hl : NonNeg l) :
+    edgesToReturn lt sort es after before f l =
+      some (lastTrunc (firstTrunc (sort (es.filter (inRange lt after before))) f) l,
+            pageInfoOf lt es (sort (es.filter (inRange lt after before))) after before f l) := by
+  cases f <;> cases l <;>
+  simp only [edgesToReturn, applyCursorsToEdges_eq, truncateFirst_eq _ _ _ hf, truncateLast_eq _ _ _ hl,
+    pageInfoOf]
+
+/-- A negative count makes `edgesToReturn` panic. -/
+theorem edgesToReturn_neg (lt : α → α → Bool) (sort : List α → List α) (es : List α)
+    (after before : Option α) (f l : Option Int) (hneg : ¬ (NonNeg f ∧ NonNeg l)) :
+    edgesToReturn lt sort es after before f l = none := by
+  by_cases hf : NonNeg f
+  · have hl : ¬ NonNeg l := fun h => hneg ⟨hf, h⟩
+    cases l with
+    | none => exact absurd trivial hl
+    | some n =>
+      have hn : n < 0 := by
+        have : ¬ (0 ≤ n) := hl
+        omega
+      simp only [edgesToReturn, truncateFirst_eq _ _ f hf, truncateLast_neg _ _ n hn]
+  · cases f with
+    | none => exact absurd trivial hf
+    | some n =>
+      have hn : n < 0 := by
+        have : ¬ (0 ≤ n) := hf
+        omega
+      simp only [edgesToReturn, truncateFirst_neg _ _ n hn]
+
+/-- The page the model returns, the flags, start and end cursor — closed form over the edge set in
+    cursor order `S`. -/
 theorem edgesToReturn_eq {lt : α → α → Bool} (h : StrictTotal lt) {sort : List α → List α}
     (hs : LawfulSort lt sort) {E S : List α} (hperm : S.Perm E) (hsorted : Sorted lt S)
     (after before : Option α) (f l : Option Int) (hf : NonNeg f) (hl : NonNeg l) :
     edgesToReturn lt sort E after before f l =
-      let R := S.filter (inRange lt after before)
-      let X := firstTrunc R f
-      let page := lastTrunc X l
-      some (page,
-        { hasPreviousPage := match l with
-            | none => E.any (fun c => !pastBefore lt before c && notPastAfter lt after c)
-            | some n => decide ((X.length : Int) > n),
-          hasNextPage := match f with
-            | none => E.any (pastBefore lt before)
-            | some n => decide ((R.length : Int) > n),
-          startCursor := page.head?, endCursor := page.getLast? }) := by
-  simp only [edgesToReturn, applyCursorsToEdges_eq, sort_filter_eq h hs hperm hsorted,
-    truncateFirst_eq _ _ f hf, truncateLast_eq _ _ l hl]
+      some (lastTrunc (firstTrunc (S.filter (inRange lt after before)) f) l,
+            pageInfoOf lt E (S.filter (inRange lt after before)) after before f l) := by
+  rw [edgesToReturn_raw lt sort E after before f l hf hl, sort_filter_eq h hs hperm hsorted]
 
 /-! ## The Relay specification on a list in cursor order -/
 
